@@ -48,6 +48,28 @@ CASES = [
   sub("        if self.parent[element] == element:\n            return element\n\n        self.parent[element] = self.find(self.parent[element])\n        return self.parent[element]",
       "        while self.parent[element] != element:\n            element = self.parent[element]\n        return element"),
   "while loop without a recognised variant"),
+ ("nested function defined twice: Python calls the definition in force at the call, not the last one",
+  sub("        def _binary(\n", "        def _binary(partition: \"DisjointSet\", groups: List[int], first: Optional[int], second: Optional[int]) -> List[\"DisjointSet\"]:\n            return []\n\n        def _binary(\n"),
+  "defined twice"),
+ ("for over the live attribute list while the body changes self",
+  sub("        for i in range(len(self.parent)):\n            result[self.find(i)].append(i)",
+      "        for i, _p in enumerate(self.parent):\n            result[self.find(i)].append(i)"),
+  "the list it iterates over"),
+ ("nested function called before its (single) definition: Python raises UnboundLocalError",
+  sub("        def _binary(\n", "        early = _binary(partition=self, groups=[], first=None, second=None)\n\n        def _binary(\n"),
+  "defined before the first statement"),
+ ("nested function re-bound by a loop of the enclosing function",
+  sub("        return _binary(\n", "        for _binary in range(0):\n            pass\n        return _binary(\n"), "defined twice / rebound"),
+ ("method defined twice",
+  sub("    def __len__(self)", "    def find(self, element: int) -> int:\n        return element\n\n    def __len__(self)"),
+  "defined twice"),
+ ("class defined twice", lambda s: s + "\n\nclass DisjointSet:\n    pass\n", "defined twice"),
+ ("for over the live attribute list while the body changes it",
+  sub("        for i in range(len(self.parent)):\n            result[self.find(i)].append(i)",
+      "        for i in self.parent:\n            result[self.find(i)].append(i)\n            self.parent.append(i)"),
+  "the list it iterates over"),
+ ("harmless: a plain item of a list attribute loaded in the statement of a call that changes self",
+  sub("        return self.parent[element]\n", "        return self.parent[element] + 0 * len([self.rank[self.find(element)]])\n"), None),
  ("harmless: locals renamed", lambda s: s.replace("rep_first", "ra").replace("results_1", "r1"), None),
  ("harmless: x -= 1 spelled out", sub("self.groups -= 1", "self.groups = self.groups - 1"), None),
  ("harmless: extra find", sub(UNITE_HEAD, "        self.find(second)\n" + UNITE_HEAD), None),
